@@ -53,6 +53,8 @@ type interpreter struct {
 	goMode     int
 	opaqueN    int
 	noSummary  bool
+	jsonN      int
+	jsonTokens map[string]value
 	classCache map[*ssa.Function]fnClass
 }
 
